@@ -22,7 +22,10 @@ import (
 	"verifharness/hx"
 )
 
-func TestMain(m *testing.M) { hx.Main(m) }
+func TestMain(m *testing.M) {
+	hx.StartStallMonitor()
+	hx.Main(m)
+}
 
 const edge = 80 * time.Millisecond // samples closer than this to a window edge are not judged
 
@@ -85,6 +88,16 @@ func (u *upstream) up(t hx.TB) bool {
 	u.ln = ln
 	go u.loop(ln)
 	return true
+}
+
+// stopListening refuses new connections but leaves the established ones alone.
+func (u *upstream) stopListening() {
+	u.mu.Lock()
+	defer u.mu.Unlock()
+	if u.ln != nil {
+		_ = u.ln.Close()
+		u.ln = nil
+	}
 }
 
 func (u *upstream) down() {
@@ -156,28 +169,69 @@ func TestPassiveFailureWindow(t *testing.T) {
 	rapid.Check(t, func(rt *rapid.T) {
 		F := time.Duration(rapid.IntRange(200, 800).Draw(rt, "failDurationMs")) * time.Millisecond
 		M := rapid.IntRange(1, 3).Draw(rt, "maxFails")
+		passive := map[string]any{"fail_duration": F.String(), "max_fails": M}
+		if rapid.IntRange(0, 3).Draw(rt, "maxFailsOmitted") == 0 {
+			// documented default: with a fail_duration and no max_fails, one failure takes the upstream out
+			M = 1
+			delete(passive, "max_fails")
+		}
 		u1, u2 := newUpstream(rt, false), newUpstream(rt, true)
 		defer u2.down()
 		h, cancel := loadProxy(rt, map[string]any{
 			"upstreams":      []map[string]any{{"dial": []string{u1.addr}}, {"dial": []string{u2.addr}}},
-			"health_checks":  map[string]any{"passive": map[string]any{"fail_duration": F.String(), "max_fails": M}},
+			"health_checks":  map[string]any{"passive": passive},
 			"load_balancing": map[string]any{"selection": map[string]any{"policy": "first"}},
 		})
 		defer cancel()
 		up1 := h.VerifUpstreams()[0]
-		var fails []time.Time // model: the failures remembered (one per refused dial)
+		// model: the failures remembered, one per refused dial. The handler counted each of them somewhere between lo (before
+		// the connection was started) and hi (after it had returned) and forgets it fail_duration later, so at a time T
+		// the failure is certainly still remembered if T < lo+F, and is forgotten by a punctual handler if T > hi+F.
+		// Verdicts of the kind "too early" follow from the first bound alone and are final. Verdicts of the kind "too
+		// late" depend on timers firing on time in a process that may be starved of CPU: they are re-examined with
+		// patience, and dropped if the stall monitor saw the process itself being held up meanwhile.
+		type failEv struct{ lo, hi time.Time }
+		var fails []failEv
 		var history []string
-		inWindow := func(at time.Time) (n int, nearEdge bool) {
+		sure := func(at time.Time) (n int) { // failures that cannot have been forgotten by `at`
 			for _, f := range fails {
-				exp := f.Add(F)
-				if at.Before(exp) {
+				if at.Before(f.lo.Add(F)) {
 					n++
-				}
-				if d := at.Sub(exp); d > -edge && d < edge {
-					nearEdge = true
 				}
 			}
 			return
+		}
+		maybe := func(at time.Time) (n int) { // failures a punctual handler may still remember at `at`
+			for _, f := range fails {
+				if !at.After(f.hi.Add(F)) {
+					n++
+				}
+			}
+			return
+		}
+		caseStart := time.Now()
+		// counterOK compares the peer's failure counter with the model; false = a violation was reported
+		counterOK := func(what string) bool {
+			t1 := time.Now()
+			st := up1.VerifPeerState(0)
+			t2 := time.Now()
+			if st.Fails < 0 {
+				hx.Fail(rt, "C11", "negative-counter", "failure count %d\n  history=%v", st.Fails, history)
+				return false
+			}
+			if lower := sure(t2); st.Fails < lower {
+				hx.Fail(rt, "C11", "fails-counter", "%s: the failure count of upstream 1 is %d, but %d failure(s) happened less than fail_duration=%v ago and cannot have expired\n  history=%v", what, st.Fails, lower, F, history)
+				return false
+			}
+			if st.Fails > maybe(t1) {
+				late := hx.Eventually(2*time.Second, 5*time.Millisecond, func() bool { now := time.Now(); return up1.VerifPeerState(0).Fails <= maybe(now) })
+				if !late && hx.Punctual(caseStart, 40*time.Millisecond, "C11/lateness-verdict-dropped-after-stall") {
+					hx.Fail(rt, "C11", "fails-counter", "%s: the failure count of upstream 1 is %d and stays there for 2 s, but only %d failure(s) happened within the last fail_duration=%v\n  history=%v", what, st.Fails, maybe(t1), F, history)
+					return false
+				}
+				hx.Class("C11/forgotten-late-tolerated", 1)
+			}
+			return true
 		}
 		judged, expired := 0, false
 		steps := rapid.IntRange(3, 14).Draw(rt, "steps")
@@ -188,52 +242,94 @@ func TestPassiveFailureWindow(t *testing.T) {
 				time.Sleep(d)
 				continue
 			}
+			if rapid.IntRange(0, 3).Draw(rt, "concurrentBurst") == 0 {
+				// several connections at the same instant: those that picked upstream 1 before its failures were
+				// recorded all get a refused dial, and every one of these failures has to be remembered
+				before := time.Now()
+				k := rapid.IntRange(2, 8).Draw(rt, "burstSize")
+				hds := make([]*held, k)
+				for i := range hds {
+					hds[i] = connect(h, false)
+				}
+				errs := 0
+				for _, hd := range hds {
+					if err, ok := hd.wait(3 * time.Second); !ok {
+						if hx.Punctual(before, 40*time.Millisecond, "C11/lateness-verdict-dropped-after-stall") {
+							hx.Fail(rt, "C11", "connect-hang", "a connection attempt did not finish within 3 s; history=%v", history)
+						}
+						return
+					} else if err != nil {
+						errs++
+					}
+				}
+				after := time.Now()
+				for i := 0; i < errs; i++ {
+					fails = append(fails, failEv{before, after})
+				}
+				history = append(history, fmt.Sprintf("burst(%d)->%d refused", k, errs))
+				if !counterOK(fmt.Sprintf("after %d simultaneous connections of which %d were refused by upstream 1", k, errs)) {
+					return
+				}
+				continue
+			}
 			before := time.Now()
-			n, near := inWindow(before)
 			hd := connect(h, false)
 			err, ok := hd.wait(3 * time.Second)
 			after := time.Now()
 			if !ok {
-				hx.Fail(rt, "C11", "connect-hang", "a connection attempt did not finish within 3 s; F=%v M=%d history=%v", F, M, history)
+				if hx.Punctual(before, 40*time.Millisecond, "C11/lateness-verdict-dropped-after-stall") {
+					hx.Fail(rt, "C11", "connect-hang", "a connection attempt did not finish within 3 s; F=%v M=%d history=%v", F, M, history)
+				}
 				return
 			}
-			n2, near2 := inWindow(after)
-			outModel := n >= M // upstream 1 out of rotation according to the model
 			history = append(history, fmt.Sprintf("connect->%v", err))
-			if err != nil {
-				// no retry is configured: the dial to upstream 1 was refused, so upstream 1 was in rotation
-				fails = append(fails, before.Add(after.Sub(before)/2))
-			}
-			if near || near2 || n != n2 {
-				continue // too close to a window edge to judge
-			}
-			judged++
-			if outModel && err != nil {
-				hx.Fail(rt, "C11", "passive-not-out-of-rotation", "%d failure(s) of upstream 1 lie within fail_duration=%v (max_fails=%d), yet the connection was sent to it again (error %v)\n  history=%v", n, F, M, err, history)
-				return
-			}
-			if !outModel && err == nil {
-				hx.Fail(rt, "C11", "passive-out-too-long", "only %d failure(s) of upstream 1 lie within fail_duration=%v (max_fails=%d), yet it was skipped\n  history=%v", n, F, M, history)
-				return
-			}
-			if n < M-0 && len(fails) > n {
+			if maybe(before) < len(fails) {
 				expired = true
 			}
-			st := up1.VerifPeerState(0)
-			nn, nr := inWindow(time.Now())
-			if !nr && st.Fails != nn {
-				hx.Fail(rt, "C11", "fails-counter", "the failure count of upstream 1 is %d, the failures remembered from the last %v number %d\n  history=%v", st.Fails, F, nn, history)
-				return
+			if err != nil {
+				// no retry is configured: the dial to upstream 1 was refused, so upstream 1 was in rotation
+				if n := sure(after); n >= M {
+					hx.Fail(rt, "C11", "passive-not-out-of-rotation", "%d failure(s) of upstream 1 lie within fail_duration=%v (max_fails=%d), yet the connection was sent to it again (error %v)\n  history=%v", n, F, M, err, history)
+					return
+				}
+				if maybe(before) < M {
+					judged++
+				}
+				fails = append(fails, failEv{before, after})
+			} else if n := maybe(before); n < M {
+				// skipped although fewer than max_fails failures are recent enough: the handler is late in forgetting, or wrong
+				judged++
+				back := hx.Eventually(2*time.Second, 20*time.Millisecond, func() bool {
+					b := time.Now()
+					if maybe(b) >= M {
+						return true // the retries themselves have taken it out again
+					}
+					e, ok := connect(h, false).wait(3 * time.Second)
+					if ok && e != nil {
+						fails = append(fails, failEv{b, time.Now()})
+						return true
+					}
+					return false
+				})
+				if !back && hx.Punctual(caseStart, 40*time.Millisecond, "C11/lateness-verdict-dropped-after-stall") {
+					hx.Fail(rt, "C11", "passive-out-too-long", "only %d failure(s) of upstream 1 lie within fail_duration=%v (max_fails=%d), yet it was skipped, and still is 2 s later\n  history=%v", n, F, M, history)
+					return
+				}
+				hx.Class("C11/forgotten-late-tolerated", 1)
+			} else if sure(after) >= M {
+				judged++
 			}
-			if st.Fails < 0 {
-				hx.Fail(rt, "C11", "negative-counter", "failure count %d\n  history=%v", st.Fails, history)
+			if !counterOK("after a connection attempt") {
 				return
 			}
 		}
 		// quiescence: every failure is forgotten after fail_duration
 		time.Sleep(F + 120*time.Millisecond)
-		if st := up1.VerifPeerState(0); st.Fails != 0 || !up1.VerifAvailable() {
-			hx.Fail(rt, "C11", "fails-not-forgotten", "%v after the last event upstream 1 still has fails=%d available=%v (fail_duration %v)\n  history=%v", F+120*time.Millisecond, st.Fails, up1.VerifAvailable(), F, history)
+		if !hx.Eventually(3*time.Second, 10*time.Millisecond, func() bool { return up1.VerifPeerState(0).Fails == 0 && up1.VerifAvailable() }) {
+			st := up1.VerifPeerState(0)
+			if hx.Punctual(caseStart, 40*time.Millisecond, "C11/lateness-verdict-dropped-after-stall") {
+				hx.Fail(rt, "C11", "fails-not-forgotten", "%v and 3 s more after the last event upstream 1 still has fails=%d available=%v (fail_duration %v)\n  history=%v", F+120*time.Millisecond, st.Fails, up1.VerifAvailable(), F, history)
+			}
 			return
 		}
 		hx.Case(hx.Hash("passive", F, M, fmt.Sprint(history)), len(fails) > 0 && (expired || len(fails) >= M), "C11/passive-window")
@@ -275,13 +371,19 @@ func TestRetryWindow(t *testing.T) {
 		attempts := h.VerifUpstreams()[0].VerifPeerState(0).Fails
 		desc := fmt.Sprintf("try_duration=%v try_interval=%v upstream back after %v: returned %v after %v with %d failed attempt(s)", D, I, comeBack, err, el, attempts)
 		if !ok {
-			hx.Fail(rt, "C11", "retry-hang", "the handler did not return: %s", desc)
+			if hx.Punctual(start, 40*time.Millisecond, "C11/lateness-verdict-dropped-after-stall") {
+				hx.Fail(rt, "C11", "retry-hang", "the handler did not return: %s", desc)
+			}
 			return
 		}
 		slack := max(time.Second, D)
 		if comeBack >= 0 {
 			if err != nil {
-				hx.Fail(rt, "C11", "retry-gave-up", "the upstream came back inside the retry window but the connection failed: %s", desc)
+				// the upstream was back at least try_interval + 80 ms before the window closed - by this process's clock:
+				// if the process was held up meanwhile neither side kept to its timetable and nothing can be said
+				if hx.Punctual(start, 25*time.Millisecond, "C11/lateness-verdict-dropped-after-stall") {
+					hx.Fail(rt, "C11", "retry-gave-up", "the upstream came back inside the retry window but the connection failed: %s", desc)
+				}
 				return
 			}
 		} else {
@@ -294,7 +396,9 @@ func TestRetryWindow(t *testing.T) {
 				return
 			}
 			if el > D+I+slack {
-				hx.Fail(rt, "C11", "retry-too-long", "kept retrying far beyond try_duration + try_interval: %s", desc)
+				if hx.Punctual(start, 40*time.Millisecond, "C11/lateness-verdict-dropped-after-stall") {
+					hx.Fail(rt, "C11", "retry-too-long", "kept retrying far beyond try_duration + try_interval: %s", desc)
+				}
 				return
 			}
 			// attempts are at least try_interval apart: no more than elapsed/interval + 1 of them
@@ -324,10 +428,18 @@ func TestActiveChecks(t *testing.T) {
 		var history []string
 		isUp := u1.ln != nil
 		for s := rapid.IntRange(2, 6).Draw(rt, "toggles"); s > 0; s-- {
+			since := time.Now()
 			time.Sleep(3*iv + 150*time.Millisecond)
 			if got := !up.VerifPeerState(0).Unhealthy; got != isUp {
-				hx.Fail(rt, "C11", "active-health", "the peer is marked healthy=%v %v (3 intervals + 150 ms) after the listener went up=%v; interval %v history=%v", got, 3*iv+150*time.Millisecond, isUp, iv, history)
-				return
+				// late, or wrong? give it 3 s more; a verdict of "never" is dropped if the process itself was held up
+				if hx.Eventually(3*time.Second, 10*time.Millisecond, func() bool { return !up.VerifPeerState(0).Unhealthy == isUp }) {
+					hx.Class("C11/active-check-late-tolerated", 1)
+				} else {
+					if hx.Punctual(since, 40*time.Millisecond, "C11/lateness-verdict-dropped-after-stall") {
+						hx.Fail(rt, "C11", "active-health", "the peer is marked healthy=%v %v (3 intervals + 150 ms, and 3 s more) after the listener went up=%v; interval %v history=%v", got, 3*iv+150*time.Millisecond, isUp, iv, history)
+					}
+					return
+				}
 			}
 			if isUp {
 				u1.down()
@@ -385,9 +497,31 @@ func TestConnectionLimits(t *testing.T) {
 				settle()
 				continue
 			}
-			a1 := u1.accepts.Load()
+			if countU1 < m && rapid.IntRange(0, 4).Draw(rt, "failedDial") == 0 {
+				// an outage of upstream 1: a connection attempt that ends in a refused dial must not leave a trace
+				// in the connection count
+				u1.stopListening()
+				err, ok := connect(h, false).wait(3 * time.Second)
+				history = append(history, fmt.Sprintf("u1 refuses, connect->%v", err))
+				if !ok || !u1.up(rt) {
+					for _, o := range open {
+						_ = o.release()
+					}
+					return
+				}
+				settle()
+				continue
+			}
+			a1, a2 := u1.accepts.Load(), u2.accepts.Load()
 			hd := connect(h, true)
-			settle()
+			// the connection has arrived when one of the upstreams has read its marker byte
+			if !hx.Eventually(3*time.Second, time.Millisecond, func() bool { return u1.accepts.Load() > a1 || u2.accepts.Load() > a2 }) {
+				hx.Class("C11/limit-case-abandoned-connection-did-not-arrive", 1)
+				for _, o := range append(open, hd) {
+					_ = o.release()
+				}
+				return
+			}
 			wentU1 := u1.accepts.Load() > a1
 			history = append(history, fmt.Sprintf("open->u%d", map[bool]int{true: 1, false: 2}[wentU1]))
 			if wentU1 && countU1 >= m {
@@ -481,17 +615,31 @@ func TestReloadAndActiveRecoveryKeepTheWindow(t *testing.T) {
 			history = append(history, "connect inside the window -> upstream 2")
 		}
 		// after the window the failure is forgotten: upstream 1 is used again and the counter is back at 0
+		// (how long after is a matter of timers firing on time: if it has not happened yet it is given 3 s more, and a
+		// verdict of "never" is dropped if the stall monitor saw this process being held up)
 		time.Sleep(time.Until(t0.Add(F + 150*time.Millisecond)))
 		up1 := h.VerifUpstreams()[0]
 		if st := up1.VerifPeerState(0); st.Fails != 0 {
-			hx.Fail(rt, "C11", "fails-not-forgotten", "%v after its only failure upstream 1 has a failure count of %d (fail_duration %v, active checks=%v, reload=%v)\n  history=%v", time.Since(t0), st.Fails, F, withActive, reload, history)
-			return
+			if hx.Eventually(3*time.Second, 10*time.Millisecond, func() bool { return up1.VerifPeerState(0).Fails == 0 }) {
+				hx.Class("C11/forgotten-late-tolerated", 1)
+			} else {
+				if hx.Punctual(t0, 40*time.Millisecond, "C11/lateness-verdict-dropped-after-stall") {
+					hx.Fail(rt, "C11", "fails-not-forgotten", "%v after its only failure upstream 1 has a failure count of %d (fail_duration %v, active checks=%v, reload=%v)\n  history=%v", time.Since(t0), st.Fails, F, withActive, reload, history)
+				}
+				return
+			}
 		}
-		a1 := u1.accepts.Load()
-		err, ok := connect(h, false).wait(3 * time.Second)
-		time.Sleep(10 * time.Millisecond)
-		if !ok || err != nil || u1.accepts.Load() == a1 {
-			hx.Fail(rt, "C11", "passive-out-too-long", "%v after its only failure (fail_duration %v) upstream 1 is still not used (err=%v; active checks=%v, reload=%v)\n  history=%v", time.Since(t0), F, err, withActive, reload, history)
+		var err error
+		used := hx.Eventually(3*time.Second, 50*time.Millisecond, func() bool {
+			a1 := u1.accepts.Load()
+			var ok bool
+			err, ok = connect(h, false).wait(3 * time.Second)
+			return ok && err == nil && hx.Eventually(time.Second, time.Millisecond, func() bool { return u1.accepts.Load() > a1 })
+		})
+		if !used {
+			if hx.Punctual(t0, 40*time.Millisecond, "C11/lateness-verdict-dropped-after-stall") {
+				hx.Fail(rt, "C11", "passive-out-too-long", "%v after its only failure (fail_duration %v) upstream 1 is still not used (err=%v; active checks=%v, reload=%v)\n  history=%v", time.Since(t0), F, err, withActive, reload, history)
+			}
 			return
 		}
 		hx.Case(hx.Hash("reload-active", F, iv, withActive, reload), true, "C11/reload-or-active-recovery")
